@@ -3,12 +3,15 @@ package main
 import (
 	"bytes"
 	"fmt"
+	"regexp"
 	"sort"
+	"strconv"
 	"strings"
 
 	"gonum.org/v1/gonum/graph"
 	"gonum.org/v1/gonum/graph/encoding"
 	"gonum.org/v1/gonum/graph/encoding/dot"
+	dotfmt "gonum.org/v1/gonum/graph/formats/dot"
 	"gonum.org/v1/gonum/graph/multi"
 	"gonum.org/v1/gonum/graph/simple"
 	"gonum.org/v1/gonum/internal/verif/vlib"
@@ -128,8 +131,10 @@ func genDotStrings(g *vlib.G) {
 			pos := pos
 			for _, s := range strs {
 				s := s
-				if (dotPositions[pos] == "from-port" || dotPositions[pos] == "to-port") && isCompass(s) {
-					// "a:n" is a compass point, not a port named n: documented DOT ambiguity
+				if dotPositions[pos] == "from-port" && isCompass(s) {
+					// "a:n" is a compass point, not a port named n: documented DOT
+					// ambiguity. (The to-port position carries an explicit compass
+					// point, so a port spelled like one is unambiguous there.)
 					continue
 				}
 				g.Case(fmt.Sprintf("%v %s %s", k, dotPositions[pos], q(s)), func(t *vlib.T) {
@@ -286,34 +291,235 @@ func genDotShapes(g *vlib.G) {
 			}
 		}
 	}
-	// compass points on either end, with and without a port id.
+}
+
+// ---- ports ----
+
+var dotCompass = []string{"", "n", "ne", "e", "se", "s", "sw", "w", "nw", "c", "_"}
+
+// dotPortIDs: no port, ordinary, needing quotes, HTML-like, already quoted,
+// near misses of compass names, and every compass name itself (compass names
+// are not keywords: "a:n:s" is port n, compass s).
+var dotPortIDs = []string{"", "p", "a b", `q"r`, "<h>", `"n"`, "N", "north", "n1", "n", "ne", "e", "se", "s", "sw", "w", "nw", "c", "_"}
+
+type portSpec struct{ port, compass string }
+
+// ambiguous: a port id spelled like a compass point without a compass point
+// is written ":n", which DOT reads as the compass point n.
+func (p portSpec) ambiguous() bool { return p.compass == "" && isCompass(p.port) }
+
+func allPortSpecs() []portSpec {
+	var out []portSpec
+	for _, id := range dotPortIDs {
+		for _, c := range dotCompass {
+			out = append(out, portSpec{id, c})
+		}
+	}
+	return out
+}
+
+func portRoundTripCase(g *vlib.G, k dkind, from, to portSpec, tag string) {
+	g.Case(fmt.Sprintf("%v marshal %s from=%q:%q to=%q:%q", k, tag, from.port, from.compass, to.port, to.compass), func(t *vlib.T) {
+		r := newRep(t)
+		d := newDgraph(k)
+		a, b, c := d.addNode(0, "a0"), d.addNode(1, "b1"), d.addNode(2, "c2")
+		e := d.addEdge(a, b)
+		e.p.fp, e.p.fc = from.port, from.compass
+		e.p.tp, e.p.tc = to.port, to.compass
+		// a second edge stored against the id order, so that the undirected
+		// flavours have to swap the ends when they print it
+		e2 := d.addEdge(c, b)
+		e2.p.fp, e2.p.fc = to.port, to.compass
+		e2.p.tp, e2.p.tc = from.port, from.compass
+		var problem string
+		if p := catch(func() { problem, _ = dotRoundTrip(d) }); p != "" {
+			problem = "panic: " + p
+		}
+		if problem != "" {
+			r.Failf("%s", clip(problem, 1200))
+		}
+		t.Nontrivial()
+		switch {
+		case isCompass(from.port) && from.compass != "" || isCompass(to.port) && to.compass != "":
+			t.Outcome("port-named-like-compass")
+		case from.port != "" && from.compass != "" || to.port != "" && to.compass != "":
+			t.Outcome("port+compass")
+		default:
+			t.Outcome("simple")
+		}
+	})
+}
+
+// refPortText writes one edge end the way the DOT grammar spells it.
+func refPortText(node string, p portSpec) string {
+	s := node
+	if p.port != "" {
+		id := p.port
+		if !reIdentRef.MatchString(id) && !htmlForm(id) && !isQuotedForm(id) {
+			id = strconv.Quote(id)
+		}
+		s += ":" + id
+	}
+	if p.compass != "" {
+		s += ":" + p.compass
+	}
+	return s
+}
+
+var reIdentRef = regexp.MustCompile(`^[a-zA-Z_][0-9a-zA-Z_]*$`)
+
+// refPortRead is the DOT reading of a written end: port : ':' ID [ ':' compass_pt ] | ':' compass_pt.
+func refPortRead(p portSpec) portSpec {
+	if p.ambiguous() {
+		return portSpec{"", p.port}
+	}
+	return portSpec{dotExpect(p.port), p.compass}
+}
+
+type portDoc struct {
+	name  string
+	text  func(e [3]string, op string) string
+	edges func(p [3]portSpec) [][2]string // "u port compass" per end, document direction
+}
+
+func endKey(node string, p portSpec) string { return fmt.Sprintf("%s %q %q", node, p.port, p.compass) }
+
+var none = portSpec{}
+
+var portDocs = []portDoc{
+	{"edge", func(e [3]string, op string) string { return e[0] + op + e[1] },
+		func(p [3]portSpec) [][2]string { return [][2]string{{endKey("a", p[0]), endKey("b", p[1])}} }},
+	{"chain", func(e [3]string, op string) string { return e[0] + op + e[1] + op + e[2] },
+		func(p [3]portSpec) [][2]string {
+			return [][2]string{{endKey("a", p[0]), endKey("b", p[1])}, {endKey("b", p[1]), endKey("c", p[2])}}
+		}},
+	{"node-to-operand", func(e [3]string, op string) string { return e[0] + op + "{b c}" },
+		func(p [3]portSpec) [][2]string {
+			return [][2]string{{endKey("a", p[0]), endKey("b", none)}, {endKey("a", p[0]), endKey("c", none)}}
+		}},
+	{"operand-to-node", func(e [3]string, op string) string { return "{b c}" + op + e[0] },
+		func(p [3]portSpec) [][2]string {
+			return [][2]string{{endKey("b", none), endKey("a", p[0])}, {endKey("c", none), endKey("a", p[0])}}
+		}},
+	{"in-subgraph", func(e [3]string, op string) string { return "subgraph s { " + e[0] + op + e[1] + " } c" },
+		func(p [3]portSpec) [][2]string { return [][2]string{{endKey("a", p[0]), endKey("b", p[1])}} }},
+	{"operand-then-chain", func(e [3]string, op string) string { return "{c}" + op + e[0] + op + e[1] },
+		func(p [3]portSpec) [][2]string {
+			return [][2]string{{endKey("c", none), endKey("a", p[0])}, {endKey("a", p[0]), endKey("b", p[1])}}
+		}},
+}
+
+// decodedEdgeKeys lists the edges of a decoded graph as written ends.
+func decodedEdgeKeys(d *dgraph) []string {
+	s := d.snap()
+	var out []string
+	for _, e := range s.Edges {
+		u := endKey(e.U, portSpec{e.FP, e.FC})
+		v := endKey(e.V, portSpec{e.TP, e.TC})
+		if !d.kind.directed() && v < u {
+			u, v = v, u
+		}
+		out = append(out, u+" -> "+v)
+	}
+	sort.Strings(out)
+	return out
+}
+
+func portDecodeCase(g *vlib.G, k dkind, doc portDoc, ps [3]portSpec) {
+	g.Case(fmt.Sprintf("%v decode %s %q:%q %q:%q %q:%q", k, doc.name, ps[0].port, ps[0].compass, ps[1].port, ps[1].compass, ps[2].port, ps[2].compass), func(t *vlib.T) {
+		r := newRep(t)
+		op, head := " -> ", "digraph"
+		if !k.directed() {
+			op, head = " -- ", "graph"
+		}
+		ends := [3]string{refPortText("a", ps[0]), refPortText("b", ps[1]), refPortText("c", ps[2])}
+		text := head + " { " + doc.text(ends, op) + " }"
+		var want []string
+		read := [3]portSpec{refPortRead(ps[0]), refPortRead(ps[1]), refPortRead(ps[2])}
+		for _, e := range doc.edges(read) {
+			u, v := e[0], e[1]
+			if !k.directed() && v < u {
+				u, v = v, u
+			}
+			want = append(want, u+" -> "+v)
+		}
+		sort.Strings(want)
+		if p := catch(func() {
+			dst := newDgraph(k)
+			if err := dst.unmarshal([]byte(text)); err != nil {
+				r.Failf("Unmarshal(%q): %v", text, err)
+				return
+			}
+			if got := decodedEdgeKeys(dst); fmt.Sprint(got) != fmt.Sprint(want) {
+				r.Failf("Unmarshal(%q): edges with ports %q, want %q", text, got, want)
+				return
+			}
+			// the AST printer keeps every port: print, parse again, decode again
+			f, err := dotfmt.ParseString(text)
+			if err != nil {
+				r.Failf("ParseString(%q): %v", text, err)
+				return
+			}
+			printed := f.String()
+			dst2 := newDgraph(k)
+			if err := dst2.unmarshal([]byte(printed)); err != nil {
+				r.Failf("AST of %q prints as %q which does not decode: %v", text, printed, err)
+				return
+			}
+			if got := decodedEdgeKeys(dst2); fmt.Sprint(got) != fmt.Sprint(want) {
+				r.Failf("AST of %q prints as %q: edges with ports %q, want %q", text, printed, got, want)
+			}
+			checkStable(r, dst)
+		}); p != "" {
+			r.Failf("panic on %q: %s", text, p)
+		}
+		t.Nontrivial()
+	})
+}
+
+func genDotPorts(g *vlib.G) {
+	specs := allPortSpecs()
 	for _, k := range dkinds {
-		k := k
-		for _, cp := range []string{"", "n", "ne", "e", "se", "s", "sw", "w", "nw", "c", "_"} {
-			cp := cp
-			for _, port := range []string{"", "p", "a b"} {
-				port := port
-				for end := 0; end < 2; end++ {
-					end := end
-					g.Case(fmt.Sprintf("%v compass=%q port=%q end=%d", k, cp, port, end), func(t *vlib.T) {
-						r := newRep(t)
-						d := newDgraph(k)
-						a, b := d.addNode(0, "a0"), d.addNode(1, "b1")
-						e := d.addEdge(a, b)
-						if end == 0 {
-							e.p.fp, e.p.fc = port, cp
-						} else {
-							e.p.tp, e.p.tc = port, cp
-						}
-						var problem string
-						if p := catch(func() { problem, _ = dotRoundTrip(d) }); p != "" {
-							problem = "panic: " + p
-						}
-						if problem != "" {
-							r.Failf("%s", clip(problem, 1200))
-						}
-						t.Nontrivial()
-					})
+		// Marshal -> Unmarshal: every port id x compass on the from end, on the
+		// to end and on both; thorough: the full product of the two ends.
+		for _, sp := range specs {
+			if sp.ambiguous() {
+				continue
+			}
+			portRoundTripCase(g, k, sp, none, "from")
+			if sp != none {
+				portRoundTripCase(g, k, none, sp, "to")
+				portRoundTripCase(g, k, sp, sp, "both")
+			}
+		}
+		if g.Thorough() {
+			for _, a := range specs {
+				for _, b := range specs {
+					if a.ambiguous() || b.ambiguous() || a == none || b == none || a == b {
+						continue
+					}
+					portRoundTripCase(g, k, a, b, "pair")
+				}
+			}
+		}
+		// documents: every spec (the ambiguous ones with their DOT reading) on
+		// each end of each document shape
+		short := []portSpec{{"p", "se"}, {"n", "s"}, {"", "w"}, {"_", ""}}
+		for _, doc := range portDocs {
+			for _, sp := range specs {
+				portDecodeCase(g, k, doc, [3]portSpec{sp, none, none})
+				if sp == none {
+					continue
+				}
+				portDecodeCase(g, k, doc, [3]portSpec{none, sp, none})
+				if doc.name == "chain" {
+					portDecodeCase(g, k, doc, [3]portSpec{none, none, sp})
+				}
+				for _, o := range short {
+					portDecodeCase(g, k, doc, [3]portSpec{sp, o, sp})
+					if g.Thorough() {
+						portDecodeCase(g, k, doc, [3]portSpec{o, sp, o})
+					}
 				}
 			}
 		}
